@@ -364,3 +364,38 @@ def u_evolve(ctx):
     ctx.record("evolve:returns (cover)", sum(1 for o in outs if o == "ret") >= 4, kind="cover",
                detail="returning paths: %d (expected >= 4: initialised x loginit)" % sum(1 for o in outs if o == "ret"))
     ctx.record("evolve:loop-cut", f.loops_cut == {"0"}, kind="cover", detail=str(f.loops))
+
+
+@unit(P, "straightline[__init__]: every operator and every start container is stored under its own name", "A2", targets=[F + ":%s.__init__" % CLS])
+def u_init(ctx):
+    """the initial state the replicates are reset to is what the caller handed over: `start_genome` holds the genome container that was
+    passed (the object itself or a copy with the same content), `start_geno` the geno container, and so on; operators and t_max likewise"""
+    import copy as _copy
+    names = ["initop", "pselop", "mateop", "evalop", "sselop", "t_max", "start_genome", "start_geno", "start_pheno", "start_bval", "start_gmod"]
+    args = {}
+    for nm in names:
+        tok = loopcut.Token("arg:" + nm)
+        tok["content-of"] = nm                     # survives copy / deepcopy: the content identifies the argument
+        args[nm] = tok
+    args["t_max"] = 7
+    class Rec:
+        pass
+    me = Rec()
+    f = loopcut.Extracted(F + ":%s.__init__" % CLS, overrides={"super": lambda *a, **k: type("S", (), {"__init__": lambda self, **kw: None})()})
+    try:
+        f(me, **args)
+        err = None
+    except Exception as x:      # noqa
+        err = "%s: %s" % (type(x).__name__, x)
+    ctx.record("__init__:noraise", err is None, kind="noraise", detail=err or "")
+    for nm in (names if err is None else []):
+        v = getattr(me, nm, None) if err is None else None
+        if nm == "t_max":
+            ok = v == 7
+        else:
+            ok = isinstance(v, dict) and v.get("content-of") == nm
+        ctx.prove("__init__: self.%s is the %s argument (itself or a copy of it)" % (nm, nm), [], bool(ok))
+    if err is None:
+        ctx.prove("__init__: the time index starts at 0", [], getattr(me, "t_cur", None) == 0)
+    ctx.prove("canary: start_geno holds the genome container", [], err is None and isinstance(getattr(me, "start_geno", None), dict)
+              and me.start_geno.get("content-of") == "start_genome", expect="fail", timeout_ms=1000)
